@@ -450,6 +450,31 @@ ASSUMPTIONS.append("xarray: DataArray.where(mask).dropna(dim) of a one-dimension
                    "vector bound every element and are attained")
 
 
+def _window_setup():
+    ctx = _sym.ctx()
+    n1, n2 = fresh("n1", "int"), fresh("n2", "int")
+    requires(n1 >= 1, n2 >= 1)
+    t1, t2 = _fa(ctx, "t1_ns", (n1,), "int"), _fa(ctx, "t2_ns", (n2,), "int")
+    t1.time_unit = t2.time_unit = "ns"
+    mi = _ts.STimedelta(fresh("max_interval_us", "int"))
+    requires(mi.total_us >= 0)
+    start, end = NsTime(fresh("start_ns", "int")), NsTime(fresh("end_ns", "int"))
+    pp, sp = Collocator._get_common_time_period(GhostDataset(GhostTimeVar(t1)), GhostDataset(GhostTimeVar(t2)), mi, start, end)
+    i, j = fresh("i", "int"), fresh("j", "int")
+    requires(0 <= i, i < n1, 0 <= j, j < n2)
+    return t1, t2, mi, start, end, pp, sp, i, j
+
+
+_window_setup.__pyvc_thm__ = True
+
+
+@theorem(P, "common-time-window-CANARY", canary=True)
+def thm_window_canary():
+    t1, t2, mi, start, end, pp, sp, i, j = _window_setup()
+    ensures(implies(start.ns <= t1[i] and t1[i] <= end.ns, pp.keep[i]),
+            id="CANARY: every primary point within [start, end] is kept, partner or not (must fail)")
+
+
 @theorem(P, "common-time-window")
 def thm_window():
     """_get_common_time_period: the selection keeps no point outside [start, end] and loses no point that has a partner:
